@@ -102,11 +102,11 @@ Proof.
 Qed.
 
 Lemma constraint_sem s q c :
-  onehot fb s q -> In c (fl_constraints fb) ->
+  onehot fb s q -> grouped fb q -> In c (fl_constraints fb) ->
   match c with FCross | FConsistency | FSustain | FDerivation _ _ _ => True | _ =>
     (Pc c s <-> forallb (constraint_ok (code_sem fb) q) (code_constraint fb c) = true) end.
 Proof.
-  intros Ho Hin. pose proof (f1_constraints fb Facts c Hin) as Hc.
+  intros Ho Hg Hin. pose proof (f1_constraints fb Facts c Hin) as Hc.
   destruct c; try exact I; try (cbn [constraint_f1] in Hc; discriminate); cbn [Pc].
   - cbn [code_constraint forallb]; rewrite andb_true_r. exact (atmost_sem fb HF1 HT s q _ _ _ _ Ho Hc).
   - cbn [code_constraint forallb]; rewrite andb_true_r. exact (atleast_sem fb HF1 HT s q _ _ _ _ Ho Hc).
@@ -117,7 +117,7 @@ Proof.
   - split; reflexivity.
   - split; reflexivity.
   - split; reflexivity.
-  - exact (sequential_sem fb HF1 HT s q _ Ho Hc).
+  - exact (sequential_sem fb HF1 HT s q _ Ho Hg Hc).
 Qed.
 
 Theorem pall_valid s :
@@ -142,16 +142,16 @@ Proof.
     + cbn [code_sem s_crossings]. apply (crossings_sem fb HF1 HT s _ _ 0 Ho Hne (f1_crossings fb Facts)).
       destruct (f1_has_cross fb Facts) as [Hx|Hx]; [exact (H FCross Hx)|]. rewrite Hx. exact I.
     + cbn [code_sem s_constraints]. apply forallb_flat_map. intros c Hin.
-      pose proof (constraint_sem s _ c Ho Hin) as K. specialize (H c Hin).
+      pose proof (constraint_sem s _ c Ho Hg Hin) as K. specialize (H c Hin).
       destruct c; try reflexivity; try (apply K; exact H).
   - intros (q & Ho & Hv) c Hin. unfold valid_b in Hv. rewrite !andb_true_iff in Hv. destruct Hv as [[[_ Hfac] Hcr] Hcs].
     cbn [code_sem s_constraints] in Hcs. rewrite forallb_flat_map in Hcs.
+    pose proof (factors_grouped fb HF1 HT s q Ho Hfac) as Hg.
     assert (Hne : NoExcl fb s).
     { apply (no_excluded_shown fb HF1 HT s q Ho); [|exact Hfac].
       intros p Hp. pose proof (f1_exclude_backed fb Facts p Hp) as Hb.
-      apply (constraint_sem s q _ Ho Hb). exact (Hcs _ Hb). }
-    pose proof (factors_grouped fb HF1 HT s q Ho Hfac) as Hg.
-    pose proof (constraint_sem s q c Ho Hin) as K.
+      apply (constraint_sem s q _ Ho Hg Hb). exact (Hcs _ Hb). }
+    pose proof (constraint_sem s q c Ho Hg Hin) as K.
     destruct c; cbn [Pc]; try exact I; try (apply K; exact (Hcs _ Hin)).
     + unfold Pcross. apply (crossings_sem fb HF1 HT s q _ 0 Ho Hne (f1_crossings fb Facts)). exact Hcr.
     + exact (onehot_pcons fb s q Ho).
